@@ -33,21 +33,30 @@ structure Message where
 
 def optLen (o : Option Bytes) : Nat := (o.getD []).length
 
+/-- `propertyLenght` of `Message.TotalBytes` -/
+def msgPropsLen (m : Message) : Nat :=
+  (if m.payloadFormat = 1 then 2 else 0)
+  + (if m.contentType.length != 0 then 3 + m.contentType.length else 0)
+  + (if optLen m.correlationData != 0 then 3 + optLen m.correlationData else 0)
+  + (m.subIds.map (fun v => 1 + vbiLen v)).sum
+  + (if m.messageExpiry != 0 then 5 else 0)
+  + (if m.responseTopic.length != 0 then 3 + m.responseTopic.length else 0)
+  + (m.user.map (fun kv => 5 + kv.1.length + kv.2.length)).sum
+
+/-- `remainLenght` of `Message.TotalBytes` -/
+def msgRemLen (version : Nat) (m : Message) : Nat :=
+  m.payload.length + 2 + m.topic.length + (if m.qos > 0 then 2 else 0)
+    + (if version = v5 then msgPropsLen m + vbiLen (msgPropsLen m) else 0)
+
 /-- `m.TotalBytes(version)` -/
 def msgTotalBytes (version : Nat) (m : Message) : Nat :=
-  let rl := m.payload.length + 2 + m.topic.length + (if m.qos > 0 then 2 else 0)
-  let rl :=
-    if version = v5 then
-      let pl := (if m.payloadFormat = 1 then 2 else 0)
-        + (if m.contentType.length != 0 then 3 + m.contentType.length else 0)
-        + (if optLen m.correlationData != 0 then 3 + optLen m.correlationData else 0)
-        + (m.subIds.map (fun v => 1 + vbiLen v)).sum
-        + (if m.messageExpiry != 0 then 5 else 0)
-        + (if m.responseTopic.length != 0 then 3 + m.responseTopic.length else 0)
-        + (m.user.map (fun kv => 5 + kv.1.length + kv.2.length)).sum
-      rl + pl + vbiLen pl
-    else rl
+  let rl := msgRemLen version m
   if rl ≤ 127 then 2 + rl else if rl ≤ 16383 then 3 + rl else if rl ≤ 2097151 then 4 + rl else 5 + rl
+
+/-- an optional `[]byte` field of the `&packets.Properties{…}` literal -/
+def optStrEntry (id : Nat) : Option Bytes → Props
+  | some b => [(id, PVal.str b)]
+  | none => []
 
 /-- the `&packets.Properties{…}` literal of `MessageToPublish` as a sorted association list -/
 def msgProps (pf : Nat) (expiry : Nat) (ct rt : Bytes) (cd : Option Bytes) (subIds : List Nat)
@@ -56,7 +65,7 @@ def msgProps (pf : Nat) (expiry : Nat) (ct rt : Bytes) (cd : Option Bytes) (subI
   ++ (if expiry != 0 then [(0x02, PVal.u32 expiry)] else [])
   ++ (if ct.length != 0 then [(0x03, PVal.str ct)] else [])
   ++ (if rt.length != 0 then [(0x08, PVal.str rt)] else [])
-  ++ (match cd with | some b => [(0x09, PVal.str b)] | none => [])
+  ++ optStrEntry 0x09 cd
   ++ (if subIds.length != 0 then [(0x0B, PVal.vbis subIds)] else [])
   ++ (if user.length != 0 then [(0x26, PVal.users user)] else [])
 
